@@ -134,7 +134,8 @@ macro_rules! fhe_backend {
                     let zero = enc_prep(0, 4);
                     for &th in threads.iter() {
                         let r = guarded(|| {
-                            let mut p: FheUintPrepared<DeviceBuf<BE>, u32, BE> = FheUintPrepared::<DeviceBuf<BE>, u32, BE>::alloc_from_infos(module, &ggsw_infos);
+                            // the destination is a RE-USED buffer holding an unrelated word (all ones): bits outside the window must be cleared
+                            let mut p: FheUintPrepared<DeviceBuf<BE>, u32, BE> = enc_prep(0xFFFF_FFFF, 9);
                             let tt = th.max(1);
                             let bytes = tt * module.fhe_uint_prepare_tmp_bytes(7, 1, &p, &packed, key);
                             let mut s: ScratchOwned<BE> = ScratchOwned::alloc(bytes);
